@@ -86,6 +86,9 @@ EXTRA_RULES = [
     ('drop-log', r'[ \t]*log::(?:debug|warn)!\((?:[^()]|\((?:[^()]|\([^()]*\))*\))*\);\n', '',
      '`log::debug!(..);` / `log::warn!(..);` statements removed: the macros only read their arguments (`{:?}` of a FileId, '
      '`Uri::as_str()`, both pure) and write to the global logger; no Vfs state is read-modified'),
+    ('slice-to-vec', r'\berrors\.to_vec\(\)', 'vx_errors_to_vec(errors)',
+     '`errors.to_vec()` on a `&[LuaParseError]` -> vx_errors_to_vec(errors): `<[T]>::to_vec` (T: Clone) has no vstd specification; '
+     'the helper carries the std-doc contract restricted to what is used (a Vec of the same length; never panics)'),
 ]
 
 
@@ -132,16 +135,16 @@ SET_REQ = '''keys_ok(), vfs_wf(old(self)), vfs_ids_ok(old(self)),
             // panic obligation: `.expect("emmyrc set")`
             data is Some ==> old(self).emmyrc is Some'''
 
-SET_PROOF_END = '''proof {
-            let ghost o = *old(self);
-        }'''
+SET_PROOF_ALLOC = '''let ghost mid = *self;
+        proof { lemma_alloc_keeps_wf(old(self), self, fid); }'''
+SET_PROOF_END = '''proof { lemma_update_keeps_wf(&mid, self, fid); }'''
 
 UNIT = {
     'extra_rules': EXTRA_RULES,
     'items': {
         'FileId': {'src': {'file': FID, 'kind': 'struct', 'name': 'FileId'},
                    'attrs': '#[derive(Clone, Copy, PartialEq, Eq, Hash)]'},
-        'FileContent': st(VFS, 'FileContent'),
+        'FileContent': {'src': {'file': VFS, 'kind': 'struct', 'name': 'FileContent'}, 'rules': [('struct-fields', {}), 'vis-pub']},
         'Vfs': st(VFS, 'Vfs'),
         'LuaDocument': st(DOC, 'LuaDocument'),
         'LuaDocument::new': {
@@ -192,8 +195,7 @@ UNIT = {
             final(self).remote_file_id_map@ == old(self).remote_file_id_map@,
             sp_uri_path(uri) matches Some(p) ==> final(self).file_id_map@.contains_key(p) && final(self).file_id_map@[p] == r.id,
             local_id(old(self), uri) matches Some(f) ==> r == f''',
-            proof=[(r'let fid = self\.file_id\(uri\);', 'after',
-                    'proof { lemma_alloc_keeps_wf(old(self), self, fid); }')]),
+            proof=[(r'let fid = self\.file_id\(uri\);', 'after', SET_PROOF_ALLOC), (r'\n\s*fid\n', 'before', SET_PROOF_END)]),
         'Vfs::set_remote_file_content': vfs_fn(
             'set_remote_file_content', ret='r', rules=['drop-log', 'option-map-match'],
             requires=SET_REQ,
@@ -201,11 +203,11 @@ UNIT = {
             final(self).file_id_map@ == old(self).file_id_map@, final(self).file_path_map@ == old(self).file_path_map@,
             final(self).remote_file_id_map@.contains_key(*uri) && final(self).remote_file_id_map@[*uri] == r,
             old(self).remote_file_id_map@.contains_key(*uri) ==> r == old(self).remote_file_id_map@[*uri]''',
-            proof=[(r'let fid = self\.virtual_file_id\(&uri\);', 'after',
-                    'proof { lemma_alloc_keeps_wf(old(self), self, fid); }')]),
+            proof=[(r'let fid = self\.virtual_file_id\(&uri\);', 'after', SET_PROOF_ALLOC), (r'\n\s*fid\n', 'before', SET_PROOF_END)]),
         'Vfs::remove_file': vfs_fn(
             'remove_file', ret='r',
             requires='keys_ok(), vfs_ids_ok(old(self))',
+            proof=[(r'Some\(fid\)', 'before', 'proof { lemma_update_keeps_wf(old(self), self, fid); }')],
             ensures='''
             r == local_id(old(self), uri),
             vfs_ids_ok(final(self)) /*@C22.vfs.ids-ok-preserved*/,
@@ -236,7 +238,10 @@ UNIT = {
         'Vfs::update_config': vfs_fn(
             'update_config',
             ensures='''final(self).emmyrc == Some(emmyrc),
-            same_id_tables(old(self), final(self)) && same_file_tables(old(self), final(self)) /*@C09.vfs.update-config-frame*/'''),
+            // frame: no table is touched -- in particular every stored tree stays the one parsed under the PREVIOUS configuration
+            same_id_tables(old(self), final(self)) && same_file_tables(old(self), final(self)) /*@C09.vfs.update-config-frame*/,
+            vfs_wf(old(self)) ==> vfs_wf(final(self)) /*@C22.vfs.wf-preserved*/,
+            vfs_ids_ok(old(self)) ==> vfs_ids_ok(final(self)) /*@C22.vfs.ids-ok-preserved*/'''),
         'Vfs::get_file_content': vfs_fn(
             'get_file_content', ret='r',
             # panic obligation: Vec index
@@ -245,20 +250,27 @@ UNIT = {
             r matches Some(s) ==> s@ == content_of(self, *id) && *s == self.file_data@[id.id as int]->0.content'''),
         'Vfs::get_document': vfs_fn(
             'get_document', ret='r',
-            requires='keys_ok(), vfs_ids_ok(self)',
+            # panic obligation: the Vec index inside get_file_content; it is guarded by the `file_path_map` lookup, so all
+            # that is needed is the id-allocation invariant's clause "every id in file_path_map has a slot" (vfs_ids_ok ==> this)
+            requires='keys_ok(), self.file_path_map@.contains_key(id.id) ==> (id.id as int) < self.file_data@.len()',
             ensures='''
-            r is Some <==> self.file_path_map@.contains_key(id.id) && has_content(self, *id) && self.line_index_map@.contains_key(*id),
-            r matches Some(d) ==> d.file_id == *id && *d.path == self.file_path_map@[id.id],
+            // under the representation invariant the document's line index is the one parsed from the document's text
+            vfs_wf(self) ==> (r matches Some(d) ==> *d.line_index == sp_line_index(d.text@)) /*@C22.vfs.document-pairs-text-with-its-line-index*/,
             r matches Some(d) ==> d.text@ == content_of(self, *id) /*@C22.vfs.document-text-is-the-files-text*/,
             r matches Some(d) ==> *d.line_index == self.line_index_map@[*id] /*@C22.vfs.document-line-index-is-the-files-entry*/,
-            vfs_wf(self) ==> (r matches Some(d) ==> *d.line_index == sp_line_index(d.text@)) /*@C22.vfs.document-pairs-text-with-its-line-index*/,
-            vfs_wf(self) ==> (r is Some <==> self.file_path_map@.contains_key(id.id) && has_content(self, *id))'''),
+            r matches Some(d) ==> d.file_id == *id && *d.path == self.file_path_map@[id.id],
+            r is Some <==> self.file_path_map@.contains_key(id.id) && has_content(self, *id)
+                && self.line_index_map@.contains_key(*id) /*@C22.vfs.document-exists-iff*/,
+            vfs_wf(self) ==> (r is Some <==> self.file_path_map@.contains_key(id.id) && has_content(self, *id)) /*@C22.vfs.document-exists-iff-wf*/'''),
         'Vfs::get_syntax_tree': vfs_fn(
             'get_syntax_tree', ret='r', requires='keys_ok()',
             ensures='''r matches Some(t) ==> self.tree_map@.contains_key(*id) && *t == self.tree_map@[*id],
-            r is None ==> !self.tree_map@.contains_key(*id)'''),
+            r is None ==> !self.tree_map@.contains_key(*id),
+            // under the representation invariant: a tree is handed out exactly for the files that have a text, and it is a parse of THAT text
+            vfs_wf(self) ==> (r is Some <==> has_content(self, *id)),
+            vfs_wf(self) ==> (r matches Some(t) ==> tree_of_text(*t, content_of(self, *id))) /*@C22.vfs.tree-is-parse-of-current-text*/'''),
         'Vfs::get_file_parse_error': vfs_fn(
-            'get_file_parse_error', ret='r', requires='keys_ok()',
+            'get_file_parse_error', ret='r', requires='keys_ok()', rules=['slice-to-vec'],
             ensures='''r is Some ==> self.tree_map@.contains_key(*id) && sp_tree_errors(&self.tree_map@[*id]).len() > 0,
             !self.tree_map@.contains_key(*id) ==> r is None'''),
         'Vfs::is_remote_file': vfs_fn(
@@ -275,7 +287,70 @@ UNIT = {
     'allow': [r'external_body', r'uninterp spec fn sp_'],
     'min_obligations': 16,
     'trusted': [
-        'hashbrown::HashMap -> std::collections::HashMap',
+        'hashbrown::HashMap -> std::collections::HashMap (same API subset: new/get/insert/remove/clear; iteration order never relied on)',
+        'opaque shims: lsp_types::Uri, std::path::PathBuf, rowan::NodeCache, emmylua_parser::{LineIndex, LuaSyntaxTree, LuaParseError, ParserConfig}, crate::Emmyrc',
+        'LineIndex::parse(text) == sp_line_index(text@): a function of the text only (WHAT it returns is unit c22_lineindex)',
+        'LuaParser::parse(text, config) == sp_tree(text@, sp_cfg_of(config)) and Emmyrc::get_parse_config(&self, cache): sp_cfg_of(r) == sp_cfg(self): '
+        'the tree is a function of the text and of the Emmyrc; the NodeCache (rowan green-node interner) passed along does not influence its value',
+        'uri_to_file_path / file_path_to_uri are pure functions of their argument (sp_uri_path / sp_path_uri); `cfg!(windows)` is a build constant',
+        'Clone for Uri / PathBuf / LuaParseError returns an equal value; NodeCache::default() unspecified',
+        'keys_ok(): obeys_key_model for FileId (derived Hash/Eq), PathBuf (std), Uri (lsp_types) is a PRECONDITION of every fn that touches a map; u32 by vstd',
+        'LuaSyntaxTree::get_errors uninterpreted (sp_tree_errors); vx_errors_to_vec: `<[T]>::to_vec` returns a Vec of the same length',
+        'vstd specifications of Vec::{new,len,push,clear,get,get_mut,index,index-assignment}, HashMap::{new,get,insert,remove,clear}, Option::{as_ref,expect,take}, `?` on Option',
+        'capacity: fewer than u32::MAX ids allocated so far is a PRECONDITION of the id-allocating fns (`len() as u32` would wrap otherwise)',
     ],
-    'mutants': [],
+    'not_covered': [
+        'Vfs::get_all_file_ids, Vfs::get_all_local_file_ids: iterator adapters (enumerate/filter_map/collect) are outside the dialect; no contract (unit c09_reindex keeps them uninterpreted)',
+        'LuaDocument methods other than `new` (position arithmetic is unit c22_lineindex)',
+        '`impl Default for Vfs` (calls new)',
+        'the claim that every caller maintains vfs_wf / vfs_ids_ok: all fields of Vfs are private to vfs/mod.rs and every &mut fn of the module is under contract here '
+        '(new establishes both; file_id, virtual_file_id, set_file_content, set_remote_file_content, remove_file, update_config preserve both; clear preserves vfs_wf only)',
+    ],
+    'samples': [
+        'set_file_content(uri, Some(t)): line_index_map[fid] == sp_line_index(t@) and tree_map[fid] == sp_tree(t@, sp_cfg(current emmyrc)) -- unconditionally, also for an unchanged text',
+        'get_document(id) == Some(d) ==> d.text@ is the stored text of id and *d.line_index == line_index_map[id]; under vfs_wf: *d.line_index == sp_line_index(d.text@)',
+        'remove_file(uri) == Some(f) ==> f is absent from file_path_map, line_index_map, tree_map; file_data[f] is None; no path maps to f any more',
+        'update_config: every table unchanged (trees stay parsed under the previous configuration until the text is re-submitted)',
+    ],
+    'mutants': [
+        # a re-submission of an unchanged text after `update_config` must still re-parse under the new configuration
+        {'name': 'skip-reparse-when-text-unchanged', 'item': 'Vfs::set_file_content',
+         'pattern': r'let fid = self\.file_id\(uri\);',
+         'repl': 'let fid = self.file_id(uri);\n        if let Some(new_text) = &data { if let Some(old_c) = &self.file_data[fid.id as usize] '
+                 '{ if !old_c.is_remote && old_c.content == *new_text { proof { assert(has_content(self, fid) && content_of(self, fid) == new_text@); } return fid; } } }',
+         'expect': r'C09\.vfs\.tree-is-parse-under-current-config'},
+        {'name': 'line-index-under-wrong-id', 'item': 'Vfs::set_file_content',
+         'pattern': r'self\.line_index_map\.insert\(fid, line_index\);', 'repl': 'self.line_index_map.insert(FileId { id: 0 }, line_index);',
+         'expect': r'C22\.vfs\.line-index-is-parse-of-text'},
+        {'name': 'withdraw-keeps-line-index', 'item': 'Vfs::set_file_content',
+         'pattern': r'self\.line_index_map\.remove\(&fid\);', 'repl': '',
+         'expect': r'C10\.vfs\.withdrawn-text-leaves-no-entry'},
+        {'name': 'remote-withdraw-keeps-tree', 'item': 'Vfs::set_remote_file_content',
+         'pattern': r'self\.tree_map\.remove\(&fid\);', 'repl': '',
+         'expect': r'C10\.vfs\.withdrawn-text-leaves-no-entry'},
+        {'name': 'remote-tree-under-wrong-id', 'item': 'Vfs::set_remote_file_content',
+         'pattern': r'self\.tree_map\.insert\(fid, tree\);', 'repl': 'self.tree_map.insert(FileId { id: 0 }, tree);',
+         'expect': r'C09\.vfs\.tree-is-parse-under-current-config'},
+        {'name': 'remove-file-keeps-tree', 'item': 'Vfs::remove_file',
+         'pattern': r'self\.tree_map\.remove\(&fid\);', 'repl': '',
+         'expect': r'C10\.vfs\.removed-file-leaves-no-entry'},
+        {'name': 'remove-file-keeps-text', 'item': 'Vfs::remove_file',
+         'pattern': r'data\.take\(\);', 'repl': '',
+         'expect': r'C10\.vfs\.removed-file-leaves-no-entry'},
+        {'name': 'remove-file-keeps-path-to-id', 'item': 'Vfs::remove_file',
+         'pattern': r'self\.file_id_map\.remove\(&path\);', 'repl': '',
+         'expect': r'C10\.vfs\.removed-file-leaves-no-entry'},
+        {'name': 'document-with-other-files-line-index', 'item': 'Vfs::get_document',
+         'pattern': r'self\.line_index_map\.get\(id\)\?', 'repl': 'self.line_index_map.get(&FileId { id: 0 })?',
+         'expect': r'C22\.vfs\.document-pairs-text-with-its-line-index'},
+        {'name': 'syntax-tree-of-another-file', 'item': 'Vfs::get_syntax_tree',
+         'pattern': r'self\.tree_map\.get\(id\)', 'repl': 'self.tree_map.get(&FileId { id: 0 })',
+         'expect': r'C22\.vfs\.tree-is-parse-of-current-text'},
+        {'name': 'tree-parsed-from-another-text', 'item': 'Vfs::set_file_content',
+         'pattern': r'LuaParser::parse\(data, parse_config\)', 'repl': 'LuaParser::parse("", parse_config)',
+         'expect': r'C09\.vfs\.tree-is-parse-under-current-config'},
+        {'name': 'update-config-drops-trees', 'item': 'Vfs::update_config',
+         'pattern': r'self\.emmyrc = Some\(emmyrc\);', 'repl': 'self.emmyrc = Some(emmyrc); self.tree_map.clear();',
+         'expect': r'C09\.vfs\.update-config-frame'},
+    ],
 }
